@@ -97,10 +97,12 @@ pub fn generate(seed: u64, map: bool) -> DtScenario {
     // such as drop, remove, drop on a map of five or more keys occur (separate stream for the choice).
     let structured = map && root.sub("structured").chance(1, 3);
     let keys = if structured { rng.range(4, 8) as i32 } else { rng.range(1, 5) as i32 };
+    // Added to every key: {0..}, {8..} (one and two digits), {-3..} and {97..} order differently as numbers and as text.
+    let key_off: i32 = *root.sub("key-off").pick(&[0i32, 0, 8, 8, -3, 97]);
     let mut ev = |rng: &mut Rng, next: &mut i32| -> N {
         *next += 1;
         if map && structured {
-            let k = rng.range_i(0, keys as i64 - 1) as i32;
+            let k = rng.range_i(0, keys as i64 - 1) as i32 + key_off;
             match rng.below(20) {
                 0..=7 => N::Update(k, *next),
                 8..=11 => N::Remove(k),
@@ -109,7 +111,7 @@ pub fn generate(seed: u64, map: bool) -> DtScenario {
                 _ => N::Clear,
             }
         } else if map {
-            let k = rng.range_i(0, keys as i64 - 1) as i32;
+            let k = rng.range_i(0, keys as i64 - 1) as i32 + key_off;
             match rng.below(20) {
                 0..=10 => N::Update(k, *next),
                 11..=13 => N::Remove(k),
@@ -131,7 +133,7 @@ pub fn generate(seed: u64, map: bool) -> DtScenario {
                 // Fill the map first.
                 for k in 0..keys {
                     next += 1;
-                    script.push(N::Update(k, next));
+                    script.push(N::Update(k + key_off, next));
                 }
             }
             for _ in 0..pre {
@@ -179,7 +181,7 @@ pub fn generate(seed: u64, map: bool) -> DtScenario {
             let mut lv = 9000;
             for _ in 0..mr.range(1, 4) {
                 lv += 1;
-                let k = mr.range_i(0, keys as i64 - 1) as i32;
+                let k = mr.range_i(0, keys as i64 - 1) as i32 + key_off;
                 let op = match mr.below(6) {
                     0..=3 => MOp::Upd(k, lv),
                     4 => MOp::Rem(k),
